@@ -14,7 +14,7 @@ EXTRA_S = ["\ufffd".encode(), b"}", b"c", "é".encode(), "日".encode(), b"+", b
 
 
 def mk(pats, mode, s):
-    return "%s\t%d\t%s" % (",".join(hx(p) for p in pats), mode, hx(s))
+    return "%s\t%d\t%s" % (",".join(hx(p) for p in pats) if pats else "-", mode, hx(s))
 
 
 def words(alpha, maxlen):
@@ -39,6 +39,8 @@ class P:
         P_, S_ = (3, 2) if tier == "quick" else (4, 3)
         subs = list(words(SSYM, S_))
         cases = [mk([p], m, s) for p in words(PSYM, P_) for s in subs for m in MODES]
+        # the empty list of patterns: no pattern matches
+        cases += [mk([], m, s) for s in subs[:40] for m in list(MODES) + [0, 15]]
         nex = len(cases)
         rc = []
         nrand = 40000 if tier == "quick" else 600000
@@ -92,6 +94,8 @@ class P:
             return "unmodelled" in m or i == m
 
         def nontrivial(c):
+            if c.startswith("-\t"):
+                return True
             p = unhx(c.split("\t")[0].split(",")[0])
             return any(x in p for x in b"*?[\\")
         return [{"name": "exhaustive", "harness": "c12", "driver": "c12", "cases": cases, "compare": cmp, "nontrivial": nontrivial,
@@ -103,7 +107,7 @@ class P:
 
     def describe(self, part, case):
         f = case.split("\t")
-        return "Match(%r, mode=%s, %r)" % ([unhx(x) for x in f[0].split(",")], f[1], unhx(f[2]))
+        return "Match(%r, mode=%s, %r)" % ([] if f[0] == "-" else [unhx(x) for x in f[0].split(",")], f[1], unhx(f[2]))
 
     def classify(self, part, case, impl, model, judge, findings):
         return None
@@ -116,6 +120,8 @@ class P:
             if pats in seen:
                 continue
             seen.add(pats)
+            if pats == "-":
+                continue
             p = unhx(pats.split(",")[0])
             lits = sorted(set(c for c in p if c not in b"*?[]\\!^"))
             chars = set(lits) | {0x2d, 0x61}
